@@ -239,6 +239,8 @@ def build_obj(shape_name, js):
     attrs = js["attrs"] if js else {}
     for a, ty in sh.attrs.items():
         v = build(ty, attrs.get(a))
+        if a in ("device", "inference_device") and ty == "Any":
+            v = "cpu"        # (an uninspected value torch must accept)
         try:
             o.__dict__[a] = v
         except Exception:
